@@ -73,6 +73,7 @@ type c10Eff struct {
 	counts, settings, onStartup   string
 	kubes, scheds, val, mut, conv []string
 	typed                         string // c10Digest of the typed (decoded) document: equal for YAML and JSON
+	schedCrons                    []string // the crontab text of every effective schedule, as the schedule manager will get it
 }
 
 func c10Evs(k htypes.OnKubernetesEventConfig) []string {
@@ -112,6 +113,7 @@ func c10Render(cfg *config.HookConfig) c10Eff {
 			c10TokBit(k.AllowFailure), c10TokList(k.IncludeSnapshotsFrom), c10TokStr(k.Queue), c10TokStr(k.Group), c10MonitorPT(k.Monitor)))
 	}
 	for _, s := range cfg.Schedules {
+		e.schedCrons = append(e.schedCrons, s.ScheduleEntry.Crontab)
 		e.scheds = append(e.scheds, fmt.Sprintf("name=%s c=%s af=%s inc=%s q=%s g=%s", c10TokStr(s.BindingName), c10TokCron(s.ScheduleEntry.Crontab), c10TokBit(s.AllowFailure),
 			c10TokList(s.IncludeSnapshotsFrom), c10TokStr(s.Queue), c10TokStr(s.Group)))
 	}
@@ -227,6 +229,11 @@ func c10RunDocBytes(c *Case, d c10Doc, policy string, y, j []byte) string {
 	}
 	emit("kube", e.kubes)
 	emit("sched", e.scheds)
+	// "bad crontabs are rejected", on the result: the text a loaded schedule carries goes to cron.AddFunc
+	// (whose error the schedule manager drops) — it must be a crontab that very library parses
+	for i, ct := range e.schedCrons {
+		c.Oracle(fmt.Sprintf("schedusable %d c=%s cok=%s", i, c10TokCron(ct), c10TokBit(c10ParseOK(ct))))
+	}
 	emit("val", e.val)
 	emit("mut", e.mut)
 	emit("conv", e.conv)
@@ -1028,6 +1035,45 @@ func runC10(r *Run) {
 			if l.out != "ok" && l.out != "err" {
 				c.Op("panic-bytes "+hex.EncodeToString(enc.b), l.out+": "+l.msg)
 			}
+		}
+	})
+	// crontab stream: documents (v1 and v0) whose schedules carry crontabs drawn from the grammar of the cron
+	// library's input — [white space] [TZ=zone] (descriptor | 5 or 6 fields) [white space] — mostly valid, or with
+	// one fault; the cron library itself is the oracle bit of each text, the model and the specification judge
+	// the verdict, the effective crontab must be the declared text and usable by the scheduler
+	nCron := r.N(1500, 20000)
+	r.Cases(600000, nCron, 0, func(c *Case, rng *Rng) {
+		var d c10Doc
+		if rng.Chance(20) {
+			d = c10GenDocV0(rng)
+			c.Note("cron-doc:v0")
+		} else {
+			d = c10GenDoc(rng, c10GenOpts{needSched: true, needUniqueKubes: true})
+			d.Settings = nil
+			c.Note("cron-doc:v1")
+		}
+		if len(d.Scheds) == 0 {
+			d.Scheds = append(d.Scheds, c10Sched{})
+		}
+		bad := false
+		for i := range d.Scheds {
+			ct, classes := c10GenCrontab(rng)
+			d.Scheds[i].Crontab = ct
+			good := c10ParseOK(ct) && !c10ZeroStep(ct)
+			for _, cl := range classes {
+				c.Note(fmt.Sprintf("cron:%s:%v", cl, good))
+			}
+			if !good {
+				bad = true
+			}
+		}
+		c.Nontrivial = true
+		c.Desc = "document with grammar-generated crontabs"
+		v := c10RunDoc(c, d, policy)
+		if bad {
+			c.Oracle("reject fault=bad-crontab verdict=" + v)
+		} else if v != "ok" {
+			c.Oracle("reject fault=none-expected-valid verdict=ok-expected-but-" + v)
 		}
 	})
 	nFuzz := r.N(2500, 40000)
